@@ -1,3 +1,4 @@
+#define HV_EIGEN_ASSERT_THROWS
 // C04 numeric harness: dr_exp / dr_expinv / dl_* / dr_action / dr_rminus* of the real library (float and double)
 // against independent long-double oracles (Jr = int_0^1 expm(-s ad) ds; action Jacobian from documented matrices).
 #include "jacoracle.hpp"
@@ -77,7 +78,9 @@ void run_group(Rng & rng, int n, double tol)
   }
 }
 
-int main()
+static int hv_main();
+int main() { return hv::guard(hv_main); }
+static int hv_main()
 {
   Report rep;
   rep.property = "C04";
